@@ -109,6 +109,9 @@ def extract(case, li, ei, res, ns, nc):
             if pending is not None:
                 h.problems.append("action without observation before op %d" % ev["i"])
             pending = ("sample", None)
+        elif op in ("is_complete", "progress"):
+            if pending is None:
+                pending = (op, ev["ret"])
         elif op == "drive":
             plan = ep["ops"][ev["i"]][1]
             cap = ep["ops"][ev["i"]][2]
@@ -116,8 +119,14 @@ def extract(case, li, ei, res, ns, nc):
             obs_t = ev.get("obs_t", [])
             obs_n = ev.get("obs_n", [])
             ox = ev.get("obs_x", b"")
+            ro = list(ev.get("ro", []))
             oi = 0
             for (o, r) in seq:
+                if o[0] in ("is_complete", "progress"):
+                    rv = ro.pop(0) if ro else None
+                    if pending is None:
+                        pending = (o[0], rv)
+                    continue
                 if o[0] == "observe":
                     if oi >= len(obs_t):
                         h.problems.append("drive: fewer observations than expected")
@@ -284,9 +293,19 @@ def sampler_oracle(h, phys, viol, stats, tag="C09", fixed_step=True):
                 if o.ns == len(recs) + 1:
                     recs.append((o.t, o.x))
                 stats["explicit_unarmed"] = stats.get("explicit_unarmed", 0) + 1
-        elif kind == "noop":
+        elif kind in ("noop", "is_complete", "progress"):
             if o.t != prev.t or not same(o.x, prev.x) or o.ns != prev.ns:
-                bad("a read-only call changed the engine", action=ai)
+                bad("a read-only call (%s) changed the engine" % kind, action=ai)
+                return
+            if kind == "is_complete" and ret is not None:
+                stats["is_complete_checked"] = stats.get("is_complete_checked", 0) + 1
+                if bool(ret) != bool(complete):
+                    bad("is_complete() = %r although the run %s (t=%r, t_max=%r)" % (
+                        ret, "has reported completion" if complete else "of the current set-up has not completed", o.t, tmax),
+                        action=ai)
+                    return
+            if kind == "progress" and ret is not None and not (isinstance(ret, float) and math.isfinite(ret)):
+                bad("get_progress() = %r" % ret, action=ai)
                 return
         else:
             return  # batched loop ops are not part of observed episodes
